@@ -86,7 +86,7 @@ def subchecks(tier):
          "cc_after": 0.1, "server_priority": 0.1, "zero_service": 0.2}
     prof = S.Profile(ALLOWED, weights=w, numeric="mixed", max_nodes=3, max_classes=2, plans=("max_time",), require_any=("schedule", "slotted"),
                      horizon=(8.0, 24.0), budget=800, load="heavy", resumptions=(1, 2),
-                     excluded=("sched_reroute_self", "slot_zero_first_arrival"))
+                     excluded=())
     return [
         system_subcheck("system", prof, lambda spec: [ScheduleMonitor(spec)], nontrivial, classes=classes, obs=True,
                         n={"quick": 7200, "thorough": 40000}, rule="scheduled / slotted nodes vs closed-form timetable"),
